@@ -19,7 +19,21 @@ def is_sorted_expr(prog, f, e, depth=0):
     return True
   if isinstance(e, ast.Name) and depth < 3:
     v = single_reaching_value(f, e.id)
-    return v is not None and is_sorted_expr(prog, f, v, depth + 1)
+    if v is not None and is_sorted_expr(prog, f, v, depth + 1):
+      return True
+    # a list filled only by `L.append(x)` inside loops over something sorted, x being the loop variable: an order-preserving selection
+    apps = [c for c in walk_local(f.node) if isinstance(c, ast.Call) and isinstance(c.func, ast.Attribute) and u(c.func.value) == e.id
+            and c.func.attr in ('append', 'extend', 'insert', 'sort', 'reverse')]
+    inits = [a for a in walk_local(f.node) if isinstance(a, (ast.Assign, ast.AnnAssign)) and u(a.targets[0] if isinstance(a, ast.Assign) else a.target) == e.id]
+    if apps and all(c.func.attr == 'append' and len(c.args) == 1 for c in apps) and inits and \
+        all(isinstance(a.value, ast.List) and not a.value.elts for a in inits):
+      from ..core import ancestors
+      for c in apps:
+        lp = next((x for x in ancestors(c) if isinstance(x, ast.For)), None)
+        if lp is None or u(c.args[0]) != u(lp.target) or not is_sorted_expr(prog, f, lp.iter, depth + 1):
+          return False
+      return True
+    return False
   if isinstance(e, ast.Attribute):
     # a property whose body returns sorted(...)
     m = prog.unique_method(e.attr) if hasattr(prog, 'unique_method') else None
@@ -60,8 +74,11 @@ def run(ctx):
         ok = True
         how = 'guarded by the representability test'
     if not ok and isinstance(val, ast.Name):
-      # loop variable over a collection filtered by the sanitiser
-      for lp in [l for l in g.nodes_for(st)[0].loops if isinstance(l, ast.For)]:
+      # loop variable over a collection filtered by the sanitiser (a `for` statement, or the generator of a comprehension around the call)
+      from ..core import ancestors as _anc
+      comp_loops = [gen for a_ in _anc(c) if isinstance(a_, (ast.ListComp, ast.GeneratorExp)) for gen in a_.generators]
+      st_nodes = g.nodes_for(st)
+      for lp in [l for l in (st_nodes[0].loops if st_nodes else []) if isinstance(l, ast.For)] + comp_loops:
         tnames = [x.id for x in ast.walk(lp.target) if isinstance(x, ast.Name)]
         if val.id not in tnames:
           continue
@@ -118,6 +135,21 @@ def run(ctx):
     ctx.check(ok, 'C06.canonical', con, 'emitting loop over `%s` iterates in sorted order' % u(lp.iter)[:60],
               'the loop over `%s` appends to the output in the iteration order of its source (insertion / hash order): the config '
               'string depends on the order in which bindings were made' % u(lp.iter)[:80], cs.loc(lp), instance='loop:' + u(lp.target))
+  # comprehensions whose result is added to the output (OUT += [... for x in XS], OUT.extend([...]))
+  for n in walk_local(cs.node):
+    val = None
+    if isinstance(n, ast.AugAssign) and isinstance(n.op, ast.Add) and u(n.target) in outs:
+      val = n.value
+    elif isinstance(n, ast.Call) and isinstance(n.func, ast.Attribute) and n.func.attr == 'extend' and u(n.func.value) in outs and n.args:
+      val = n.args[0]
+    if val is not None and not isinstance(val, ast.Name):
+      for comp in [x for x in ast.walk(val) if isinstance(x, (ast.ListComp, ast.GeneratorExp))]:
+        n_loops += 1
+        ok = is_sorted_expr(prog, cs, comp.generators[0].iter)
+        ctx.check(ok, 'C06.canonical', con, 'emitting comprehension over `%s` iterates in sorted order' % u(comp.generators[0].iter)[:60],
+                  'the comprehension over `%s` adds to the output in the iteration order of its source (insertion / hash order): the config '
+                  'string depends on the order in which bindings were made' % u(comp.generators[0].iter)[:80], cs.loc(comp),
+                  instance='comp:' + u(comp.generators[0].target))
   init = single_reaching_value(cs, out_var)
   if isinstance(init, ast.ListComp):
     n_loops += 1
